@@ -1500,7 +1500,7 @@ func (e *CoreExtension) filterReverse(value interface{}, args ...interface{}) (i
 		return string(runes), nil
 	case reflect.Array, reflect.Slice:
 		// Create a new slice with the same type
-		resultSlice := reflect.MakeSlice(rv.Type(), rv.Len(), rv.Len())
+		resultSlice := reflect.MakeSlice(reflect.SliceOf(rv.Type().Elem()), rv.Len(), rv.Len())
 		for i, j := 0, rv.Len()-1; j >= 0; i, j = i+1, j-1 {
 			resultSlice.Index(i).Set(rv.Index(j))
 		}
@@ -1658,7 +1658,7 @@ func (e *CoreExtension) filterSlice(value interface{}, args ...interface{}) (int
 			start = 0
 		}
 		if start >= count {
-			return reflect.MakeSlice(rv.Type(), 0, 0).Interface(), nil
+			return reflect.MakeSlice(reflect.SliceOf(rv.Type().Elem()), 0, 0).Interface(), nil
 		}
 
 		// Calculate end index
@@ -1677,7 +1677,7 @@ func (e *CoreExtension) filterSlice(value interface{}, args ...interface{}) (int
 		}
 
 		// Create a new slice with the same type
-		result := reflect.MakeSlice(rv.Type(), end-start, end-start)
+		result := reflect.MakeSlice(reflect.SliceOf(rv.Type().Elem()), end-start, end-start)
 		for i := start; i < end; i++ {
 			result.Index(i - start).Set(rv.Index(i))
 		}
@@ -1925,7 +1925,7 @@ func (e *CoreExtension) filterSort(value interface{}, args ...interface{}) (inte
 	// Try reflection for other types
 	rv := reflect.ValueOf(value)
 	if rv.Kind() == reflect.Slice || rv.Kind() == reflect.Array {
-		result := reflect.MakeSlice(rv.Type(), rv.Len(), rv.Len())
+		result := reflect.MakeSlice(reflect.SliceOf(rv.Type().Elem()), rv.Len(), rv.Len())
 		for i := 0; i < rv.Len(); i++ {
 			result.Index(i).Set(rv.Index(i))
 		}
